@@ -95,6 +95,11 @@ def space(tier):
             for kern in ("add", "rdown", "rup"):
                 for order in (0, 1):
                     cases.append(("xdma", chan, byte, ex, 2, kern, order))
+    for accname in ("snax_hwpe_mult", "snax_alu"):
+        for n in (4, 16, 20, 64):
+            for dyn in (0, 1):
+                for offs in ((0, 0, 0), (3, 0, 0), (0, 5, 0), (0, 0, 7), (1, 2, 3)):
+                    cases.append(("legacy", accname, n, dyn, offs))
     hists = [(0,), (0, 1), (0, 7), (2, 9, 14), (0, 1, 7, 20)]
     if tier == "thorough":
         hists += [(a, b_) for a in range(0, 24, 3) for b_ in range(1, 24, 4)] + [(1, 5, 9), (3, 3, 8), (0, 4, 11, 19), (2, 6, 10, 14, 18)]
@@ -485,6 +490,77 @@ def gemmx_launch_level(r, acc, key, case_j, geom, groups, rs, m_total):
         r.violate(key + "|launch-groups", case_j, f"snax_gemmx n={geom}, {groups} channel groups: {bad}")
 
 
+# ------------------------------------------------------------------------------------------------ legacy linalg.generic lowerings (snax_hwpe_mult, snax_alu)
+
+
+def eval_legacy(r, accname, n, dyn, offs):
+    """linalg.generic with library_call = <acc> on 1-D memrefs (static / dynamic size, optional element offset per operand through the strided layout):
+    Accelerator.convert_to_acc_ops builds the setup from pointer, offset and size queries"""
+    from machines.memview import View, handlers as mem_handlers
+
+    acc = common.ctx().get_acc(accname)
+    el, w = ("i32", 4) if accname == "snax_hwpe_mult" else ("i64", 8)
+    sz = "?" if dyn else str(n)
+    tys = [f"memref<{sz}x{el}, strided<[1], offset: {o}>>" if o else f"memref<{sz}x{el}>" for o in offs]
+    body = f"%r = arith.muli %x, %y : {el}" if accname == "snax_hwpe_mult" else f"%r = arith.addi %x, %y : {el}"
+    text = (
+        "builtin.module {\n  " + common.to_text(acc.generate_acc_op()) + f"\nfunc.func @f(%a : {tys[0]}, %b : {tys[1]}, %o : {tys[2]}) {{\n"
+        f'  linalg.generic {{indexing_maps = [affine_map<(d0) -> (d0)>, affine_map<(d0) -> (d0)>, affine_map<(d0) -> (d0)>], iterator_types = ["parallel"], library_call = "{accname}"}} '
+        f"ins(%a, %b : {tys[0]}, {tys[1]}) outs(%o : {tys[2]}) {{\n  ^bb0(%x : {el}, %y : {el}, %z : {el}):\n    {body}\n    linalg.yield %r : {el}\n  }}\n  func.return\n}}\n}}\n"
+    )
+    key = f"legacy|{accname}|{n}|{dyn}|{offs}"
+    case_j = dict(kind="legacy", acc=accname, n=n, dyn=dyn, offs=list(offs))
+    r.obs = ("legacy", accname, n, dyn, offs)
+    r.states = 1
+    r.nontrivial = any(offs) or dyn
+    r.sample = dict(kind="legacy", accelerator=accname, program=text)
+    try:
+        mod = common.compile_text(text, "convert-linalg-to-accfg")
+    except common.Rejected as e:
+        r.rejected = e.kind
+        r.count("legacy_rejected:" + str(e)[:70])
+        return
+    setup = next((op for op in mod.walk() if op.name == "accfg.setup"), None)
+    if setup is None:
+        r.rejected = "no-setup"
+        return
+    names = [p.data for p in setup.param_names]
+    h = dict(mem_handlers())
+    h.update({"accfg.setup": lambda it, op: [("state",)], "accfg.launch": lambda it, op: [("tok",)], "accfg.await": lambda it, op: []})
+    it = Interp(handlers=h, budget=20000)
+    bases = [0x10000, 0x20000, 0x30000]
+    views = [View((nm, 0), w, o, [n], [1], base) for nm, o, base in zip("abo", offs, bases)]
+    try:
+        it.run_func(find_func(mod, "f"), views)
+    except (UseBeforeDef, InterpError) as e:
+        r.violate(key + "|exec", case_j, f"generated setup code cannot be evaluated: {e}")
+        return
+    vals = [it.get(v) for v in setup.values]
+    r.validated = 1
+    r.transitions += it.steps
+    decl = acc.generate_acc_op().field_names()
+    if tuple(names) != tuple(decl):
+        r.violate(key + "|names", case_j, f"setup field names {names} differ from the declared fields {list(decl)}")
+        return
+    ptr = [base + o * w for base, o in zip(bases, offs)]
+    if accname == "snax_hwpe_mult":
+        exp = {"A": ptr[0], "B": ptr[1], "O": ptr[2], "vector_length": n, "nr_iters": 1, "mode": 1}
+    else:
+        exp = {"alu_mode": 0, "loop_bound_alu": n // 4}
+        for nm, p_ in zip("abc", ptr):
+            exp.update({f"{nm}_ptr_low": p_, f"{nm}_ptr_high": 0, f"{nm}_sstride_0": 8, f"{nm}_bound_0": n // 4, f"{nm}_tstride_0": 32})
+    got = dict(zip(names, vals))
+    if accname == "snax_hwpe_mult" and n != 1 and wrap(got["vector_length"], 32) == exp["nr_iters"] and wrap(got["nr_iters"], 32) == exp["vector_length"]:
+        # one call site, one symptom, whatever the input: a single violation class (see known_findings.json)
+        r.violate(
+            "legacy|snax_hwpe_mult|swapped:vector_length<->nr_iters", case_j,
+            f"snax_hwpe_mult linalg.generic lowering (n={n}, offsets {offs}): the field named vector_length receives the iteration count {got['vector_length']} and the "
+            f"field named nr_iters receives the vector length {got['nr_iters']}",
+        )
+        exp = {k_: v for k_, v in exp.items() if k_ not in ("vector_length", "nr_iters")}
+    compare(r, key, case_j, names, vals, exp, f"{accname} linalg.generic lowering (n={n}, offsets {offs})")
+
+
 # ------------------------------------------------------------------------------------------------ xdma
 
 
@@ -632,6 +708,8 @@ def evaluate(case) -> CaseResult:
         eval_gemmx(r, *case[1:])
     elif kind == "xdma":
         eval_xdma(r, *case[1:])
+    elif kind == "legacy":
+        eval_legacy(r, *case[1:])
     else:
         eval_phs(r, *case[1:])
     r.count("cases_" + kind)
@@ -650,6 +728,8 @@ def replay(case):
         c = ("gemmx", case["geom"], case["kern"], case["var"])
     elif k == "xdma":
         c = ("xdma", case["chan"], case["byte"], _t(case["ex"]), case["L"]) + ((case["kern"], case["order"]) if case.get("kern") else ())
+    elif k == "legacy":
+        c = ("legacy", case["acc"], case["n"], case["dyn"], _t(case["offs"]))
     else:
         c = ("phs", _t(case["hist"]), case["k"], case["L"])
     return evaluate(c).violations
